@@ -140,6 +140,9 @@ func protocolProblems(evs []pj.Event, root string, runErr string, want map[strin
 	closure := map[string]bool{}
 	reach(root, closure)
 	for l := range closure {
+		if _, known := deps[l]; !known {
+			continue // a label that names no target (a missing dependency), or no dependency information at all
+		}
 		if _, has := outcome[l]; !has {
 			failedBelow := false
 			for _, d := range deps[l] {
@@ -147,8 +150,10 @@ func protocolProblems(evs []pj.Event, root string, runErr string, want map[strin
 					failedBelow = true
 				}
 			}
-			if !failedBelow && runErr == "" {
-				probs = append(probs, fmt.Sprintf("%s: visited target produced no event although no dependency failed", l))
+			// (a target with a missing dependency must itself report the lone failed event: the missing label has no
+			// outcome, so such a target is not "downstream of a failure")
+			if !failedBelow {
+				probs = append(probs, fmt.Sprintf("%s: visited target produced no event although no dependency of it failed (run error %q)", l, runErr))
 			}
 		}
 	}
@@ -381,7 +386,7 @@ func c18Case(c *core.Ctx, id string) {
 			if cbAlways {
 				c.Count("callback_runs_with_always (output lines compared)", 1)
 			}
-			if probs, kinds := c18Callback(s.Root, target, e.P.Args, o.Failing, e.S, cbAlways, want); len(probs) > 0 {
+			if probs, kinds := c18Callback(s.Root, target, e.P.Args, o.Failing, e.S, cbAlways, want, deps); len(probs) > 0 {
 				c.Violation(id, "", "callback-event-protocol-violated", map[string]any{"problems": probs, "variant": variant, "target": target, "failing": o.Failing, "event_kinds": kinds})
 				return
 			}
@@ -414,7 +419,7 @@ func renderEvents(evs []pj.Event) []string {
 
 // c18Callback builds target through the run() builtin with a callback and checks the grammar
 // on the "kind" field of the event structs.
-func c18Callback(root, target string, args []string, failing []string, s *pj.Session, always bool, want map[string][]string) ([]string, []string) {
+func c18Callback(root, target string, args []string, failing []string, s *pj.Session, always bool, want map[string][]string, deps map[string][]string) ([]string, []string) {
 	s.SetFailing(failing)
 	mainRec := &pj.Recorder{} // the project's own Events sink, next to the callback channel
 	proj, err := dawn.Load(root, &dawn.LoadOptions{Args: args, Events: mainRec, Builtins: starlark.StringDict{"v": pj.Module()}})
@@ -469,7 +474,7 @@ func c18Callback(root, target string, args []string, failing []string, s *pj.Ses
 			rd = e.Err
 		}
 	}
-	probs := protocolProblems(evs, target, rd, want, nil, always)
+	probs := protocolProblems(evs, target, rd, want, deps, always)
 	// while a callback carries a run, the project's own sink must not receive pieces of it: an output line there has no
 	// evaluating/completion around it
 	for _, e := range mainRec.Snapshot() {
